@@ -226,6 +226,35 @@ def _j(e):
     return [x.hex() if isinstance(x, bytes) else (list(x) if isinstance(x, tuple) else x) for x in e]
 
 
+def frames_coq(frs):
+    fs = []
+    for fr in frs:
+        if fr[0] == "DATA":
+            fs.append(f"Data {fr[1]} {fr[2]} {fr[3]} [{';'.join(str(b) for b in fr[4])}]")
+        elif fr[0] in ("ACK", "NAK"):
+            fs.append(f"{'Ack' if fr[0] == 'ACK' else 'Nak'} {fr[1]} {fr[2]} {fr[3]}")
+        elif fr[0] == "RST":
+            fs.append("Rst")
+        else:
+            fs.append(f"{'Rstack' if fr[0] == 'RSTACK' else 'Error'} {fr[1]} {fr[2]}")
+    return "[" + "; ".join(fs) + "]"
+
+
+def hevent_coq(e):
+    """one harness event as a Gallina hevent (model/AshHost.v)"""
+    if e[0] == "submit":
+        return f"Submit {e[1]} [{';'.join(str(b) for b in e[2])}]"
+    if e[0] == "frames":
+        return f"Frames {frames_coq(e[1])}"
+    if e[0] == "tick":
+        return "Tick"
+    if e[0] == "wait":
+        return f"WaitTo {float(e[1]).hex()}%float"
+    if e[0] == "cancel":
+        return f"CancelCaller {e[1]}"
+    raise ValueError(e)
+
+
 def enc_steps(steps):
     z = []
     for st in steps:
@@ -337,35 +366,13 @@ class Check(PropertyCheck):
     def describe(self, case):
         return {k: v for k, v in case.items() if not k.startswith("_")}
 
-    @staticmethod
-    def _frames(frs):
-        fs = []
-        for fr in frs:
-            if fr[0] == "DATA":
-                fs.append(f"Data {fr[1]} {fr[2]} {fr[3]} [{';'.join(str(b) for b in fr[4])}]")
-            elif fr[0] in ("ACK", "NAK"):
-                fs.append(f"{'Ack' if fr[0] == 'ACK' else 'Nak'} {fr[1]} {fr[2]} {fr[3]}")
-            elif fr[0] == "RST":
-                fs.append("Rst")
-            else:
-                fs.append(f"{'Rstack' if fr[0] == 'RSTACK' else 'Error'} {fr[1]} {fr[2]}")
-        return "[" + "; ".join(fs) + "]"
-
     def model_input(self, case):
         out = []
         for e in case["_events"]:
-            if e[0] == "submit":
-                out.append(f"REv (Submit {e[1]} [{';'.join(str(b) for b in e[2])}])")
-            elif e[0] == "frames":
-                out.append(f"REv (Frames {self._frames(e[1])})")
-            elif e[0] == "race":
-                out.append(f"RRace {self._frames(e[1])}")
-            elif e[0] == "tick":
-                out.append("REv Tick")
-            elif e[0] == "wait":
-                out.append(f"REv (WaitTo {float(e[1]).hex()}%float)")
-            elif e[0] == "cancel":
-                out.append(f"REv (CancelCaller {e[1]})")
+            if e[0] == "race":
+                out.append(f"RRace {frames_coq(e[1])}")
+            else:
+                out.append(f"REv ({hevent_coq(e)})")
         return "[" + "; ".join(out) + "]"
 
     def obs_to_z(self, case, obs):
